@@ -458,7 +458,9 @@ class RawSession:
         try:
             hdr = await asyncio.wait_for(self.r.readexactly(4), 60)
             return await asyncio.wait_for(self.r.readexactly(struct.unpack('>I', hdr)[0]), 60)
-        except (asyncio.IncompleteReadError, ConnectionError, BrokenPipeError):
+        except asyncio.TimeoutError:
+            raise
+        except Exception:            # IncompleteReadError, ConnectionLost, BrokenPipe ...: the stream is gone
             return None
 
     async def request(self, pkt, script='ok'):
@@ -470,7 +472,7 @@ class RawSession:
         self.nsent += 1
         try:
             self.w.write(frame(pkt) + frame(bytes([SENTINEL_TYPE]) + u32(sid)))
-        except (ConnectionError, BrokenPipeError, OSError):
+        except Exception:
             self.closed = True
             return [], True
         got = []
@@ -826,6 +828,47 @@ def build_request_plan(ctx, v, rng, thorough):
     return head + plan
 
 
+def judge_request(v, pkt, script, rr, closed, meta, app_called):
+    """The property, evaluated on what the implementation did with one request packet.  Returns None or why."""
+    if len(pkt) < 5:
+        return None
+    kind = meta.get('kind')
+    rid = struct.unpack('>I', pkt[1:5])[0]
+    legal = (101, RETURN_TYPE.get(kind, 101))
+    if closed is True:
+        return 'the session ended'
+    if closed == 'hang':
+        return 'no reply arrived (not even to the following request)'
+    if len(rr) != 1:
+        return f'{len(rr)} replies were sent'
+    if rr[0][1] != rid:
+        return f'the reply carries id {rr[0][1]}'
+    if rr[0][0] not in legal:
+        return f'the reply has type {rr[0][0]}, legal are {legal}'
+    body = rr[0][2]
+    if meta.get('must_fail') and not (body[0] == 'status' and body[1] != 0):
+        return f'a request with a malformed body / unsupported type was answered by {rr[0]}'
+    if meta.get('must_fail') and body[1] != meta.get('want_code', body[1]):
+        return (f'a request with a malformed body / unsupported type was answered by status {body[1]}, '
+                f'the documented code is {meta["want_code"]}')
+    if body[0] == 'status' and body[1] <= 31 and MIN_VERSION(body[1]) > v:
+        return f'status code {body[1]} is not defined in SFTPv{v}'
+    if meta.get('reached') and script not in ('ok', 'empty') and body[0] == 'status' and app_called:
+        want = None
+        if script[0] == 'os':
+            sym = errno_sym(script[1])
+            want = doc_status(v, DOC_ERRNO_CODE.get(ERRNO_NAMES[sym - 1], 4) if sym else 4)
+        elif script[0] == 'sftp':
+            want = doc_status(v, script[1])
+        elif script == 'notimpl':
+            want = 8
+        elif script == 'other':
+            want = 4
+        if want is not None and body[1] != want:
+            return f'application outcome {script!r} was reported as status {body[1]}, documented is {want}'
+    return None
+
+
 async def server_session(ctx, conn, state, v, rng, thorough, cases, stats):
     rs = RawSession(conn, state)
     await rs.start(v)
@@ -844,44 +887,18 @@ async def server_session(ctx, conn, state, v, rng, thorough, cases, stats):
         obs.append(rr)
         ctx.note_case(('srv', v, pkt, script), nontrivial=meta.get('handler', False))
         # ---- direct oracle on this request
-        kind = meta.get('kind')
-        if len(pkt) >= 5:
-            rid = struct.unpack('>I', pkt[1:5])[0]
-            legal = (101, RETURN_TYPE.get(kind, 101))
-            why = None
-            if closed is True:
-                why = 'the session ended'
-            elif closed == 'hang':
-                why = 'no reply arrived (not even to the following request)'
-            elif len(rr) != 1:
-                why = f'{len(rr)} replies were sent'
-            elif rr[0][1] != rid:
-                why = f'the reply carries id {rr[0][1]}'
-            elif rr[0][0] not in legal:
-                why = f'the reply has type {rr[0][0]}, legal are {legal}'
-            elif meta.get('must_fail') and not (rr[0][2][0] == 'status' and rr[0][2][1] != 0):
-                why = f'a request with a malformed body / unsupported type was answered by {rr[0]}'
-            elif rr[0][2][0] == 'status' and rr[0][2][1] <= 31 and MIN_VERSION(rr[0][2][1]) > v:
-                why = f'status code {rr[0][2][1]} is not defined in SFTPv{v}'
-            elif meta.get('reached') and script != 'ok' and script != 'empty' and rr[0][2][0] == 'status':
-                want = None
-                if script[0] == 'os':
-                    sym = errno_sym(script[1])
-                    want = doc_status(v, DOC_ERRNO_CODE.get(ERRNO_NAMES[sym - 1], 4) if sym else 4)
-                elif script[0] == 'sftp':
-                    want = doc_status(v, script[1])
-                elif script == 'notimpl':
-                    want = 8
-                elif script == 'other':
-                    want = 4
-                if want is not None and state.get('calls', 0) > meta['calls_before'] and rr[0][2][1] != want:
-                    why = f'application outcome {script!r} was reported as status {rr[0][2][1]}, documented is {want}'
-            if why:
-                ctx.failing_input(
-                    f'SFTPv{v} server, request type {pkt[0]} id {rid} ({meta.get("label")}, application outcome '
-                    f'{script!r}): {why}; request={pkt.hex()}',
-                    {'kind': 'server_request', 'version': v, 'prefix': [[p.hex(), _script_json(s)] for p, s in pkts[:-1]][-12:],
-                     'request': pkt.hex(), 'script': _script_json(script), 'why': why})
+        why = judge_request(v, pkt, script, rr, closed, meta, state.get('calls', 0) > meta.get('calls_before', 0))
+        if why:
+            rid_ = struct.unpack('>I', pkt[1:5])[0]
+            keep = [(p, sc) for p, sc in pkts[:-1] if p[:1] in (b'\x03', b'\x0b', b'\x04', b'\x0c')]
+            ctx.failing_input(
+                f'SFTPv{v} server, request type {pkt[0]} id {rid_} ({meta.get("label")}, application outcome '
+                f'{script!r}): {why}; request={pkt.hex()}',
+                {'kind': 'server_request', 'version': v, 'prefix': [[p.hex(), _script_json(sc)] for p, sc in keep],
+                 'request': pkt.hex(), 'script': _script_json(script),
+                 'meta': {k: (x.decode('latin-1') if isinstance(x, bytes) else x) for k, x in meta.items()
+                          if k in ('kind', 'must_fail', 'want_code', 'reached', 'label')},
+                 'kind_is_ext': isinstance(meta.get('kind'), bytes), 'why': why})
         return rr, closed
 
     def rid():
@@ -922,7 +939,7 @@ async def server_session(ctx, conn, state, v, rng, thorough, cases, stats):
                 # a strict prefix of a well-formed body is malformed unless every dropped byte was optional
                 must_fail = is_trunc and _truncation_is_malformed(kind, v, body, bb)
                 stats['truncated' if is_trunc else label] = stats.get('truncated' if is_trunc else label, 0) + 1
-                meta = {'kind': kind, 'label': label, 'handler': True, 'must_fail': must_fail,
+                meta = {'kind': kind, 'label': label, 'handler': True, 'must_fail': must_fail, 'want_code': 5,
                         'reached': not is_trunc and label in ('valid', 'valid-ok'), 'calls_before': state.get('calls', 0)}
                 rr, closed = await send(pkt, script, meta)
                 if len(rr) == 1:
@@ -944,14 +961,14 @@ async def server_session(ctx, conn, state, v, rng, thorough, cases, stats):
         elif label == 'unknown-type':
             pkt = bytes([kind]) + u32(rid()) + bytes(rng.randrange(256) for _ in range(rng.randint(0, 12)))
             stats['unknown-type'] = stats.get('unknown-type', 0) + 1
-            await send(pkt, gen_script(rng), {'kind': None, 'label': label, 'must_fail': True})
+            await send(pkt, gen_script(rng), {'kind': None, 'label': label, 'must_fail': True, 'want_code': 8})
         elif label == 'unknown-ext':
             pkt = bytes([200]) + u32(rid()) + sstr(kind) + rng.choice([b'', sstr(b'/a')])
             stats['unknown-ext'] = stats.get('unknown-ext', 0) + 1
-            await send(pkt, gen_script(rng), {'kind': None, 'label': label, 'must_fail': True})
+            await send(pkt, gen_script(rng), {'kind': None, 'label': label, 'must_fail': True, 'want_code': 8})
         elif label == 'ext-truncated-name':
             for bb in (b'', b'\x00\x00', b'\x00\x00\x00\x09copy', b'\xff\xff\xff\xff'):
-                await send(bytes([200]) + u32(rid()) + bb, 'ok', {'kind': None, 'label': label, 'must_fail': True})
+                await send(bytes([200]) + u32(rid()) + bb, 'ok', {'kind': None, 'label': label, 'must_fail': True, 'want_code': 5})
     # the session must still be alive: a final well-formed request gets its reply
     if not rs.closed and not hang:
         pkt = bytes([17]) + u32(0xABCDEF) + sstr(b'/final') + (u32(0) if v >= 4 else b'')
@@ -1003,19 +1020,20 @@ def _truncation_is_malformed(kind, v, body, bb):
 async def run_server_sessions(ctx):
     rng = ctx.rng
     thorough = ctx.tier == 'thorough'
-    state = {}
-    listener, conn = await sshutil.loopback(srv_kw={'sftp_factory': make_scripted_server(state), 'sftp_version': 6})
     cases, stats = [], {}
     total = 0
-    try:
-        rounds = 6 if thorough else 1
-        for r in range(rounds):
-            for v in VERSIONS:
+    rounds = 6 if thorough else 1
+    for r in range(rounds):
+        for v in VERSIONS:
+            # one connection per session: a server that tears the connection down must not hide later sessions
+            state = {}
+            listener, conn = await sshutil.loopback(srv_kw={'sftp_factory': make_scripted_server(state), 'sftp_version': 6})
+            try:
                 total += await server_session(ctx, conn, state, v, rng, thorough, cases, stats)
-    finally:
-        conn.close()
-        listener.close()
-        await listener.wait_closed()
+            finally:
+                conn.close()
+                listener.close()
+                await listener.wait_closed()
     return cases, stats, total
 
 
@@ -1047,6 +1065,8 @@ def _events_json(events):
             out.append(['R', e[1], e[2], e[3].hex()])
         elif e[0] == 'B':
             out.append(['B', e[1].hex()])
+        elif e[0] == 'X':
+            out.append(['X', e[1]])
         else:
             out.append(['E'])
     return out
@@ -1061,6 +1081,8 @@ def _events_unjson(events):
             out.append(('R', e[1], e[2], bytes.fromhex(e[3])))
         elif e[0] == 'B':
             out.append(('B', bytes.fromhex(e[1])))
+        elif e[0] == 'X':
+            out.append(('X', e[1]))
         else:
             out.append(('E',))
     return out
@@ -1075,6 +1097,17 @@ def client_oracle(ctx, driver, v, info):
             {'kind': 'client_session', 'driver': driver, 'version': v, 'start': info['start'],
              'events': _events_json(info['events'])})
     return bad
+
+
+def _count_late_replies(info, stats):
+    """replies that arrived for the id of a caller cancelled earlier (the case a table clean-up gets wrong)"""
+    gone = set()
+    for e in info['events']:
+        if e[0] == 'X' and 0 <= e[1] < len(info['wire_ids']) and info['wire_ids'][e[1]] is not None:
+            gone.add(info['wire_ids'][e[1]])
+        elif e[0] == 'R' and e[2] in gone:
+            stats['late_reply_to_cancelled'] = stats.get('late_reply_to_cancelled', 0) + 1
+            gone.discard(e[2])
 
 
 async def run_client_mem(ctx, cases, stats):
@@ -1097,6 +1130,7 @@ async def run_client_mem(ctx, cases, stats):
             stats['wrapped_sessions'] = stats.get('wrapped_sessions', 0) + 1
         if not info['open']:
             stats['sessions_failed'] = stats.get('sessions_failed', 0) + 1
+        _count_late_replies(info, stats)
         # out-of-order: some reply answered a request that was not the oldest outstanding one
         client_oracle(ctx, 'in-memory', v, info)
         if i == 0:
@@ -1116,12 +1150,15 @@ async def run_client_e2e(ctx, cases, stats):
             cases.append(case)
             ctx.note_case(('client-e2e', v, tuple(info['events'])), nontrivial=len(info['tasks']) >= 2)
             stats['e2e_sessions'] = stats.get('e2e_sessions', 0) + 1
+            _count_late_replies(info, stats)
             if info.get('hung'):
                 ctx.failing_input(f'SFTPv{v} client over a real channel: {info["hung"]} callers never completed although the '
                                   f'server closed the channel; events {info["events"]!r}',
                                   {'kind': 'client_session', 'driver': 'e2e', 'version': v, 'start': 0,
                                    'events': _events_json(info['events'])})
             client_oracle(ctx, 'end-to-end', v, info)
+            if info.get('hung'):
+                break
     finally:
         conn.close()
         listener.close()
@@ -1146,6 +1183,7 @@ def stage_client(ctx):
                         ty='Z * Z * list cev * list (hkey * option Z * option (res cval)) * bool', shard=40)
     report(ctx, 'client_sessions', bad, cases)
     need = ['caller.value', 'caller.SFTPBadMessage', 'caller.pending', 'caller.SFTPConnectionLost', 'caller.SFTPNoConnection',
+            'caller.cancelled', 'late_reply_to_cancelled',
             'wrapped_sessions', 'sessions_failed', 'e2e_sessions']
     missing = [k for k in need if not stats.get(k)]
     if missing:
@@ -1169,16 +1207,93 @@ def run(ctx):
         'the application behind the server (SFTPServer methods) is an adversarial oracle in the model: it may return, '
         'return nothing, or raise SFTPError / OSError / NotImplementedError / any Exception; BaseException '
         '(task cancellation) and failures of the channel write itself are not modelled',
+        'str(SFTPAttrs) (evaluated eagerly for the debug log by the open/setstat/fsetstat/lsetstat handlers; raises for '
+        'time stamps beyond time.ctime\'s range) is a parameter fmt_ok of the server model: the theorems hold for every '
+        'such function, the correspondence instantiates it for this platform (64-bit time_t, TZ=UTC)',
+        'client model: waiter cancellation, the version handshake and request_limits are not modelled; reachability of the '
+        'id wrap-around is exercised by presetting the private counter _next_pktid (skipped if the attribute is gone)',
+        'tables in coq/Gen/SftpTables.v are produced by this driver by probing the running code over their whole finite '
+        'domain; the probe itself (scripted SFTPServer over a real loopback connection) is trusted',
+        'in-memory client driver uses asyncssh.sftp.start_sftp_client and SFTPClient._handler with a scripted '
+        'reader/writer; the end-to-end driver and the server driver use only public API over 127.0.0.1',
     ]
+    os.environ['TZ'] = 'UTC'
+    import time as _time
+    if hasattr(_time, 'tzset'):
+        _time.tzset()
     stage_tables(ctx)
-    ctx.prove()
+    for _attempt in range(4):
+        ctx.prove()
+        # two runs of this check at the same time can find each other's freshly built .vo ("up to date": no
+        # Print Assumptions output); that says nothing about the proofs, so build again
+        racy = [b for b in ctx.broken if b['name'].startswith('assumptions-parse') and 'is up to date' in str(b['detail'])]
+        if not racy:
+            break
+        ctx.broken = [b for b in ctx.broken if b not in racy]
     oracle_tables(ctx)
     stage_codecs(ctx)
     stage_server(ctx)
     stage_client(ctx)
 
 
+def oracle_name_roundtrip(ctx, v, n, rest=b'\x01\x02'):
+    impl = W.name_to_impl(n)
+    if impl is None or not W.py_name_carriable(v, n):
+        return None
+    try:
+        enc = impl.encode(v)
+    except Exception:
+        enc = None
+    got = impl_name_decode(enc + rest, v) if enc is not None else None
+    if got != ('ok', (n, rest)):
+        ctx.failing_input(f'SFTPv{v} name {n!r} does not survive encode/decode: {enc!r} -> {got!r}',
+                          {'kind': 'name_roundtrip', 'version': v, 'filename': n[0].hex(),
+                           'longname': None if n[1] is None else n[1].hex(), 'attrs': _jsonable(n[2])})
+        return False
+    return True
+
+
+async def replay_server(rp, q):
+    v = rp['version']
+    state = {}
+    listener, conn = await sshutil.loopback(srv_kw={'sftp_factory': make_scripted_server(state), 'sftp_version': 6})
+    try:
+        rs = RawSession(conn, state)
+        await rs.start(v)
+        unj = lambda sc: tuple(sc) if isinstance(sc, list) else sc
+        for p, sc in rp.get('prefix', []):
+            await rs.request(bytes.fromhex(p), unj(sc))
+        pkt = bytes.fromhex(rp['request'])
+        script = unj(rp['script'])
+        meta = dict(rp.get('meta', {}))
+        if rp.get('kind_is_ext') and isinstance(meta.get('kind'), str):
+            meta['kind'] = meta['kind'].encode('latin-1')
+        before = state.get('calls', 0)
+        got, closed = await rs.request(pkt, script)
+        rr = [parse_reply(x) for x in got]
+        why = judge_request(v, pkt, script, rr, closed, meta, state.get('calls', 0) > before)
+        print('replies:', rr, 'closed:', closed)
+        if why:
+            q.failing_input(why, {})
+        rs.close()
+    finally:
+        conn.close()
+        listener.close()
+        await listener.wait_closed()
+
+
+async def replay_client(rp, q):
+    events = _events_unjson(rp['events'])
+    fixed = [e if e[0] != 'B' else ('B', e[1]) for e in events]
+    case, info = await C.mem_session(None, rp['version'], rp.get('start', 0), None, fixed=fixed)
+    bad = C.oracle_session(rp['version'], info)
+    print('callers:', [t.label() for t in info['tasks']], 'ids:', info['wire_ids'], 'open:', info['open'])
+    if bad:
+        q.failing_input('; '.join(bad), {})
+
+
 def replay(rp):
+    """Re-run one recorded failing input against the current tree; 1 iff it still fails."""
     core.setup_paths()
     kind = rp.get('kind')
 
@@ -1189,9 +1304,35 @@ def replay(rp):
         def failing_input(self, what, replay):
             self.failed = True
             print('still fails:', what)
+            return True
     q = Quiet()
     if kind == 'attrs_roundtrip':
         oracle_attrs_roundtrip(q, rp['version'], _unjson(rp['attrs']))
-        return 1 if q.failed else 0
-    print('replay of kind', kind, 'is not supported stand-alone; run ./check C14')
-    return 2
+    elif kind == 'name_roundtrip':
+        n = (bytes.fromhex(rp['filename']), None if rp['longname'] is None else bytes.fromhex(rp['longname']),
+             _unjson(rp['attrs']))
+        oracle_name_roundtrip(q, rp['version'], n)
+    elif kind == 'server_request':
+        sshutil.run(replay_server(rp, q))
+    elif kind == 'client_session':
+        # sessions recorded by the end-to-end driver are replayed on the in-memory driver (same client code)
+        sshutil.run(replay_client(rp, q))
+    elif kind in ('errno_status', 'sftp_status', 'client_error_code'):
+        class T:
+            pass
+        t = T()
+        t.tables = sshutil.run(build_tables())
+        t.cov = {'evaluations': 0}
+        t.failing_input = lambda what, r: (q.failing_input(what, r) if
+                                           (r.get('kind') == kind and all(r.get(k) == rp.get(k) for k in ('errno', 'code', 'version')))
+                                           else None)
+        oracle_tables(t)
+    elif 'no_longer_checks' in rp:
+        print('this replay names theorems / correspondences that no longer check:', [b['name'] for b in rp['no_longer_checks']])
+        print('re-run ./check C14 to see whether they check now')
+        return 2
+    else:
+        print('unknown replay kind', kind)
+        return 2
+    print('PASS (the recorded input no longer fails)' if not q.failed else 'FAIL')
+    return 1 if q.failed else 0
